@@ -414,8 +414,9 @@ func (x *Exec) checkInvariants(st *State, fr *Frame, header *ssa.BasicBlock, ord
 			x.oblige(st, "inv", fmt.Sprintf("loop%d.%s.%s", ord, label, when), pos, t, c.Props)
 		}
 	}
-	// automatic frame invariant (only for the function under contract)
-	if fr.parent == nil && !x.fnModAll {
+	// automatic frame invariant: relative to the pre-state of the function under contract, also for the loops of closures
+	// and helpers executed in place (their writes are the function's writes)
+	if !x.fnModAll {
 		ws := x.loopWriteSet(st, fr, header)
 		if !ws.all {
 			for _, n := range sortedKeys(ws.names) {
@@ -552,7 +553,7 @@ func (x *Exec) havocLoop(st *State, fr *Frame, header *ssa.BasicBlock, ord int) 
 	} else if x.dry == 0 {
 		x.warn("loop %d of %s has no invariant (only the automatic frame is assumed)", ord, fr.fn.Name())
 	}
-	if fr.parent == nil && !x.fnModAll && !ws.all {
+	if !x.fnModAll && !ws.all {
 		for _, n := range sortedKeys(ws.names) {
 			st.assume(x.frameFormula(st, n))
 		}
